@@ -525,6 +525,53 @@ PARAM_TYPES = [("int", int, TOL), ("numpy.int64", numpy.int64, TOL), ("numpy.int
                ("numpy.float32", numpy.float32, 1e-5)]
 
 
+def grid_scan(chk, ps, quick):
+    """two cheap clauses over MANY grids (the full linear map above is affordable for a few dozen configurations only):
+    (a) zero spatial mean — for any draws the mean of the screen over the grid is the zero-frequency coefficient, which the
+        property removes: with every draw equal to 1 the screen must sum to 0 for every even N and every pixel size (decimal pixel
+        sizes such as 0.3 or 0.7 included: a frequency axis whose centre sample is 1e-17 instead of 0 is a grid too);
+    (b) amplitude ∝ r0^(-5/6) for fixed draws also when the inner scale spans many pixels, where exp(-(f/fm)²) underflows on part
+        of the grid (which frequencies carry power then must still not depend on r0)."""
+    rng = chk.rng
+    deltas = [0.3, 0.7, 0.01, 0.1, 1.0, 0.07, 1. / 3, 0.6, 0.05, 0.9, 1.1, 0.013] + [logu(rng, 0.003, 2.0) for _ in range(8)]
+    sizes = list(range(2, 42, 2)) + [64, 98, 100, 128] + ([] if quick else list(range(42, 128, 2)))
+    for N in sizes:
+        for delta in (deltas if N <= 40 else deltas[:6]):
+            c = dict(N=N, r0=logu(rng, 0.05, 0.5), delta=delta, L0=logu(rng, 1.0, 100.0), l0=logu(rng, 0.001, 0.05))
+            chk.oracle_cases += 1
+            chk.count("oracle:grid-scan:zero-mean")
+            chk.case(("grid-scan", N, delta))
+            for fn, name in ((hi_screen, "hi"), (sh_screen, "sh")):
+                if name == "sh" and N > 40:
+                    continue
+                scr = numpy.asarray(fn(ps, c, numpy.ones(2 * N * N + 54))[0], dtype=float)
+                m, top = abs(float(scr.mean())), float(numpy.abs(scr).max())
+                if not m <= 1e-9 * max(top, 1e-300):
+                    chk.fail("zero-mean:spatial:%s:grid" % name, "ft_%sphase_screen(N=%d, delta=%r, r0=%.4g, L0=%.4g, l0=%.4g) with every draw "
+                             "equal to 1 has spatial mean %.6g (largest |value| %.6g): the zero frequency is not removed on this grid"
+                             % ("sh_" if name == "sh" else "", N, delta, c["r0"], c["L0"], c["l0"], m, top), dict(c, clause="zero-mean"))
+                    break
+    nprng = numpy.random.default_rng(rng.getrandbits(32))
+    for N, delta, l0px in ((64, 0.1, 50.0), (32, 0.1, 50.0), (128, 0.05, 50.0), (48, 0.02, 70.0), (64, 0.1, 45.0), (40, 0.3, 60.0)):
+        if quick and N > 64:
+            continue
+        g = nprng.normal(size=2 * N * N + 54)
+        for ra, rb in ((0.05, 0.2), (0.02, 0.5), (0.11, 0.37)):
+            c = dict(N=N, r0=ra, delta=delta, L0=logu(rng, 5.0, 50.0), l0=l0px * delta)
+            chk.oracle_cases += 1
+            chk.count("oracle:grid-scan:r0-scaling:large-l0")
+            chk.case(("grid-scan-l0", N, delta, l0px, ra, rb))
+            for fn, name in ((hi_screen, "hi"), (sh_screen, "sh")):
+                sa = numpy.asarray(fn(ps, c, g)[0], dtype=float)
+                sb = numpy.asarray(fn(ps, c, g, r0=rb)[0], dtype=float)
+                err = float(numpy.abs(sb - (rb / ra) ** (-5.0 / 6.0) * sa).max())
+                if not err <= TOL * float(numpy.abs(sb).max()):
+                    chk.fail("r0-scaling:%s:large-l0" % name, "N=%d delta=%g l0=%g (%g pixels): screen(r0=%g) ≠ (%g/%g)^(-5/6)·screen(r0=%g) "
+                             "for the same draws (max |Δ| = %.3g of %.3g)" % (N, delta, c["l0"], l0px, rb, rb, ra, ra, err,
+                                                                             float(numpy.abs(sb).max())), dict(c, r0b=rb, clause="r0-scaling"))
+                    break
+
+
 def param_types(chk, ps, quick):
     """r0, delta, L0, l0 given as Python ints / NumPy scalars (and N as a NumPy integer) denote the same real numbers: the
     screen must be the one obtained with Python floats"""
@@ -704,5 +751,6 @@ def run(chk):
     # even sizes with a large prime factor (FFT implementations treat them differently from 2^a 3^b 5^c sizes)
     for N in ([26] if quick else [26, 34, 38]):
         oracle_config(chk, ps, config(chk.rng, N), nprng, do_sh=False)
+    grid_scan(chk, ps, quick)
     param_types(chk, ps, quick)
     numeric_clauses(chk, ps, quick)
